@@ -43,7 +43,7 @@ from pulser.sequence._schedule import _ChannelSchedule
 
 PROP = "C06"
 LEAN_TARGETS = ["PulserModel.Sampler", "Proofs.Sampler", "Properties.C06", "Driver.SeqRender", "pmdriver"]
-N_HIST = {"quick": 800, "thorough": 20000}
+N_HIST = {"quick": 650, "thorough": 20000}
 N_SLM = {"quick": 150, "thorough": 4000}
 TWO_PI = 2 * math.pi
 
@@ -742,6 +742,17 @@ class CaseResult:
         self.status = []
 
 
+def note_user_pulse(seq, op, nslots_before, user_pulses):
+    """Remember the pulse instruction that an add / add_eom_pulse / add_dmm_detuning call appended
+    (also when the call raised afterwards: the instruction is then still the user's pulse)."""
+    if op["k"] not in ("add", "addeom", "adddmm"):
+        return
+    name = real_name(op["ch"])
+    sch = seq._schedule.get(name)
+    if sch is not None and len(sch.slots) > nslots_before.get(name, 0) and isinstance(sch.slots[-1].type, Pulse):
+        user_pulses.add((name, len(sch.slots) - 1))
+
+
 def pick_mask(rng, nq):
     k = rng.randrange(1, nq + 1)
     return sorted(rng.sample(range(nq), k))
@@ -768,7 +779,9 @@ def run_case(drv, spec, ops_or_gen, exact, nops, seed, stats, every=None, mask="
         op = ops_or_gen[i] if gen is None else gen.next_op()
         res.ops.append(op)
         before = set(ls.real.seq._schedule)
+        nslots = {n: len(x.slots) for n, x in ls.real.seq._schedule.items()}
         st = ls.step(op)
+        note_user_pulse(ls.real.seq, op, nslots, user_pulses)
         res.nsteps += 1
         res.status.append(st.real)
         if gen is not None:
@@ -784,8 +797,6 @@ def run_case(drv, spec, ops_or_gen, exact, nops, seed, stats, every=None, mask="
                     weights[wire_name(name)] = list(op["weights"])
                 res.features.add("dmm")
             elif k in ("add", "addeom", "adddmm"):
-                name = real_name(op["ch"])
-                user_pulses.add((name, len(ls.real.seq._schedule[name].slots) - 1))
                 res.pulses += 1
                 res.features.add(k)
             elif k in ("eomon", "eommod"):
@@ -882,13 +893,13 @@ def run_slm_case(case: dict, stats, seed) -> CaseResult:
         if op["k"] in ("dur", "est", "pref"):
             continue
         res.ops.append(op)
+        nslots = {n: len(x.slots) for n, x in real.seq._schedule.items()}
         status, _ = real.apply(op)
         res.status.append((status, _))
+        note_user_pulse(real.seq, op, nslots, user_pulses)
         if gen is not None:
             gen.feedback(op, status, real)
         if status == "ok" and op["k"] in ("add", "addeom", "adddmm"):
-            name = real_name(op["ch"])
-            user_pulses.add((name, len(real.seq._schedule[name].slots) - 1))
             res.pulses += 1
     if not done and gen is not None:
         slm(case["mask"])
